@@ -258,12 +258,15 @@ def build_classes(rec, spec_mods, T):
         for (kind, g), members in groups.items():
             keys = tuple(n for n, _ in members)
             scripts = dict(members)
+            np_ = next(p.get('np') for p in spec['params'] if p['kind'] == kind and p.get('group') == g)
+            inner = nopoll if np_ == 'inner' else (lambda f: f)       # @nopoll below the handler decorator
+            outer = nopoll if np_ == 'outer' else (lambda f: f)       # nopoll(...) applied to the handler object
             if kind == 'handler':
                 def hf(self, pname, _sc=scripts):
                     return fake(self, 'read_' + pname, _sc[pname], 'changing')
                 hf.__name__ = 'read_group%d' % g
                 hf.__qualname__ = 'Gen%d.read_group%d' % (mi, g)
-                ns['read_group%d' % g] = ReadHandler(keys)(hf)
+                ns['read_group%d' % g] = outer(ReadHandler(keys)(inner(hf)))
             else:
                 def cf(self, _sc=scripts, _keys=keys):
                     v = fake(self, 'read_' + _keys[0], _sc[_keys[0]], 'changing')
@@ -271,7 +274,7 @@ def build_classes(rec, spec_mods, T):
                         setattr(self, kname, v)
                 cf.__name__ = 'read_common%d' % g
                 cf.__qualname__ = 'Gen%d.read_common%d' % (mi, g)
-                ns['read_common%d' % g] = CommonReadHandler(keys)(cf)
+                ns['read_common%d' % g] = outer(CommonReadHandler(keys)(inner(cf)))
 
         dp_script = [tuple(x) for x in spec.get('doPoll', [[0, 'ok']])]
         dp_reads = list(spec.get('doPollReads', []))
@@ -343,27 +346,31 @@ def build_classes(rec, spec_mods, T):
     return classes
 
 
-def expected_polled(spec, mobj):
-    """which parameters the poller may read, from how the class was generated (NOT from pollInfo):
-    ids are positions in `mobj.parameters`"""
+def decls_of(spec, mobj):
+    """how the class declares the read function of each parameter (in `mobj.parameters` order), from how the class was
+    GENERATED (not from the flags the framework computed): `[kind, inner nopoll, outer nopoll]`.  Which of these are
+    polled is decided in Lean (model `PollFlags.pollFlag` for the correspondence, `Spec.C13.mayPoll` for the judge)."""
     kinds = {p['name']: p for p in spec['params']}
-    names = list(mobj.parameters)
     res = []
     seen_common = set()
-    for i, n in enumerate(names):
+    for n in mobj.parameters:
         p = kinds.get(n)
         if spec['base'] == 'io' and n == 'is_connected':
-            res.append(i)       # IOBase.read_is_connected is a polled read function of the framework
-            continue
-        if p is None:
-            continue
-        if p['kind'] == 'read' or p['kind'] == 'handler':
-            res.append(i)
-        elif p['kind'] == 'common':
-            first = [q['name'] for q in spec['params'] if q['kind'] == 'common' and q['group'] == p['group']][0]
-            if n == first and p['group'] not in seen_common:
-                seen_common.add(p['group'])
-                res.append(i)
+            res.append(['plain', False, False])       # IOBase.read_is_connected is a plain read function of the framework
+        elif p is None or p['kind'] == 'none':
+            res.append(['none', False, False])
+        elif p['kind'] == 'read':
+            res.append(['plain', False, False])
+        elif p['kind'] == 'nopoll':
+            res.append(['plain', True, False])
+        else:
+            np_ = next(q.get('np') for q in spec['params'] if q['kind'] == p['kind'] and q.get('group') == p['group'])
+            if p['kind'] == 'handler':
+                k = 'handler'
+            else:
+                first = [q['name'] for q in spec['params'] if q['kind'] == 'common' and q['group'] == p['group']][0]
+                k = 'commonFirst' if n == first else 'commonRest'
+            res.append([k, np_ == 'inner', np_ == 'outer'])
     return res
 
 
@@ -459,17 +466,18 @@ def impl_run(case):
         index = {m.name: i for i, m in enumerate(thread_mods)}       # model index = position in the thread's list
         spec_of = {('m%d' % mi): spec for mi, spec in enumerate(spec_mods)}
 
-        model_mods, judge_mods = [], []
+        model_mods, judge_mods, impl_flags = [], [], []
         for i, mobj in enumerate(thread_mods):
             spec = spec_of[mobj.name]
-            polled = expected_polled(spec, mobj)
+            decls = decls_of(spec, mobj)
             names = list(mobj.parameters)
             enabled = bool(spec.get('enabled', True))
             stamps = []
-            for pid in polled:
-                pobj = mobj.parameters[names[pid]]
-                ts = pobj.timestamp or 0
-                stamps.append([pid, _tick(ts)])
+            for pid, n in enumerate(names):
+                ts = mobj.parameters[n].timestamp or 0
+                if ts:
+                    stamps.append([pid, _tick(ts)])
+            impl_flags.append([bool(getattr(mobj, 'read_' + n).poll) for n in names])
             # every parameter of an enabled module is watched: a time stamp on a non-polled one is just ignored by the model
             for pid, n in enumerate(names):
                 if enabled:
@@ -477,9 +485,9 @@ def impl_run(case):
                     rec.track.append((i, pid, pobj))
                     rec.stamps[(i, pid)] = pobj.timestamp or 0
             iv = _tick(mobj.pollinterval)
-            model_mods.append({'enabled': enabled, 'slow': _tick(mobj.slowinterval), 'polled': polled if enabled else [],
+            model_mods.append({'enabled': enabled, 'slow': _tick(mobj.slowinterval), 'decls': decls,
                                'pollinterval': iv, 'interval': iv, 'stamps': stamps})
-            judge_mods.append({'enabled': enabled, 'slow': _tick(mobj.slowinterval), 'polled': polled if enabled else [],
+            judge_mods.append({'enabled': enabled, 'slow': _tick(mobj.slowinterval), 'decls': decls,
                                'pollinterval': iv, 'cmds': [], 'names': names})
             rec.cmds[i] = judge_mods[-1]['cmds']
 
@@ -698,6 +706,7 @@ def impl_run(case):
         'judge_mods': [{k: v for k, v in m.items() if k != 'names'} for m in judge_mods],
         'names': [m['names'] for m in judge_mods],
         'order': [m.name for m in thread_mods],
+        'impl_flags': impl_flags,
         'calls': rec.calls,
         'incomplete': rec.incomplete,
         'advs': rec.advs,
@@ -724,7 +733,12 @@ def fn_json(f):
     return f
 
 
+def flags_requests(obs):
+    return [{'p': 'C13', 'k': 'flags', 'decls': m['decls']} for m in obs['model_mods']]
+
+
 def model_request(obs):
+    """the polled parameters of the model's modules are computed in Lean from `decls` (model `PollFlags`)"""
     return {'p': 'C13', 'k': 'run', 'clock': obs['clock0'],
             'mods': obs['model_mods'], 'adv': obs['advs'],
             'calls': [{'d': c['d'], 'o': MODEL_OUTCOME[c['o']] if c['o'] in MODEL_OUTCOME else c['o'],
@@ -796,8 +810,9 @@ def gen_case(rng, big, T):
             kind = rng.choice(['read', 'read', 'read', 'nopoll', 'none', 'handler', 'common'])
             if kind in ('handler', 'common') and i + 1 < np_:
                 group += 1
+                npv = rng.choice([None, None, None, 'inner', 'outer'])
                 for _ in range(2):
-                    params.append({'name': names[i], 'kind': kind, 'group': group,
+                    params.append({'name': names[i], 'kind': kind, 'group': group, 'np': npv,
                                    'script': gen_script(rng, heavy and rng.random() < 0.3, failing)})
                     i += 1
                 continue
@@ -917,6 +932,25 @@ def command_catalogue():
     return cases
 
 
+def decl_catalogue():
+    """every way a class can declare a read function, on one poll thread: read handlers and common read handlers
+    without / with `@nopoll` on the handler function / with `nopoll(...)` on the handler object, plain and `@nopoll`
+    read functions, a parameter without read function"""
+    def mod(kind):
+        params = []
+        for g, (npv, (x, y)) in enumerate([(None, 'ab'), ('inner', 'ce'), ('outer', 'fg')], 1):
+            for n in (x, y):
+                params.append({'name': n, 'kind': kind, 'group': g, 'np': npv, 'script': [[4, 'ok']]})
+        return {'base': 'readable', 'has_io': True, 'pollinterval': 1024, 'slow': 2048, 'params': params,
+                'doPoll': [[4, 'ok']], 'doPollReads': [], 'init': [[0, 'ok']], 'initReads': [], 'enabled': True}
+    plain = {'base': 'module', 'has_io': True, 'pollinterval': 1024, 'slow': 1024,
+             'params': [{'name': 'a', 'kind': 'read', 'script': [[4, 'ok']]}, {'name': 'b', 'kind': 'nopoll', 'script': [[4, 'ok']]},
+                        {'name': 'c', 'kind': 'none', 'script': [[4, 'ok']]}],
+             'doPoll': [[4, 'ok']], 'doPollReads': ['b'], 'init': [[0, 'ok']], 'initReads': [], 'enabled': True}
+    io = {'base': 'io', 'pollinterval': 5120, 'slow': 4096, 'params': [], 'enabled': True, 'doPoll': [[0, 'ok']], 'init': [[0, 'ok']]}
+    return [{'mods': [io, mod('handler'), mod('common'), plain], 'actions': [], 'wactions': [], 'T': 30 * TICKS, 'start': 1000}]
+
+
 def window_catalogue():
     """one module with a long poll interval; another thread shortens it at the entry of the n-th event operation of
     the poll thread, n = 1..6 (before a wait / between a wait and the clear, early and late in the run)"""
@@ -1012,10 +1046,20 @@ def describe(obs, judge):
     return '; '.join(parts)
 
 
+def ask(ctx, obs):
+    """model of the flags -> model of the loop (with the polled lists the flag model yields) and the judge"""
+    a = ctx.driver.batch([model_request(obs), judge_request(obs)] + flags_requests(obs))
+    for f in a[2:]:
+        if 'driver_error' in f:
+            raise RuntimeError(f'driver error: {f}')
+    obs['model_flags'] = [f['flags'] for f in a[2:]]
+    return a[0], a[1]
+
+
 def evaluate(ctx, case):
     obs = impl_run(case)
-    a = ctx.driver.batch([model_request(obs), judge_request(obs)])
-    return obs, a[0], a[1]
+    model, judge = ask(ctx, obs)
+    return obs, model, judge
 
 
 def shrink_case(ctx, case, sig):
@@ -1073,6 +1117,7 @@ def run(ctx):
     cases += [dict(c) for c in BOUNDARY]
     cases += command_catalogue()
     cases += window_catalogue()
+    cases += decl_catalogue()
     n = ctx.budget(140, 600)
     for _ in range(n):
         c = gen_case(rng, big, T)
@@ -1089,7 +1134,7 @@ def run(ctx):
             res.notes.append(f'wall budget reached after {ci} of {len(cases)} scenarios')
             break
         obs = impl_run(case)
-        model, judge = ctx.driver.batch([model_request(obs), judge_request(obs)])
+        model, judge = ask(ctx, obs)
         if 'driver_error' in model or 'driver_error' in judge:
             raise RuntimeError(f'driver error: {model} {judge}')
         res.evaluations += 1
@@ -1117,6 +1162,9 @@ def run(ctx):
         res.count('failing-calls=%s' % ('0' if not fails else '1-9' if fails < 10 else '10+'))
         res.count('startup-abort' if model.get('aborted') else 'startup-complete')
         res.count('events=%s' % ('<100' if len(evs) < 100 else '<1000' if len(evs) < 1000 else '1000+'))
+        for m in obs['model_mods']:
+            for d in m['decls']:
+                res.count('decl.%s%s' % (d[0], '.nopoll' if d[1] or d[2] else ''))
         for c in obs['calls']:
             res.count('outcome.' + c['o'])
         if (nen >= 2 or fails) and nmain >= 20 and nslow >= 1 and len(obs['waits']) >= 1:
@@ -1127,7 +1175,10 @@ def run(ctx):
         # ---- correspondence
         if ctx.model_ok:
             mevs = model['evs']
-            if obs.get('drift'):
+            if obs['model_flags'] != obs['impl_flags']:
+                res.disagreements.append({'case': case, 'model': {'poll_flags': obs['model_flags']},
+                                          'impl': {'poll_flags': obs['impl_flags'], 'decls': [m['decls'] for m in obs['model_mods']]}})
+            elif obs.get('drift'):
                 res.disagreements.append({'case': case, 'model': 'no slot for what the implementation did', 'impl': obs['drift']})
             elif mevs != evs or (obs['calls'] and model['loopStart'] != obs['loopStart'] and obs['advs']):
                 k = next((i for i, (x, y) in enumerate(zip(mevs, evs)) if x != y), min(len(mevs), len(evs)))
